@@ -90,10 +90,21 @@ func main() {
 			// the tree may have changed since the file was written: retry leniently, say so
 			fmt.Fprintf(os.Stderr, "strict replay failed (%s); retrying with lenient schedule\n", infra)
 			rep, got, hashes, texts, infra = core.Replay(p, f, false, *verbose)
+			strict = false
 		}
 		if infra != "" {
 			fmt.Fprintln(os.Stderr, "infra:", infra)
 			os.Exit(2)
+		}
+		if !rep && !strict {
+			// the recorded schedule may no longer fit this tree: an order-dependent
+			// violation is looked for again under fresh seeded schedules
+			if r2, g2, inf2 := core.ReplayFresh(p, f, 48); inf2 == "" && r2 {
+				rep, got = true, g2
+				if !*quiet {
+					fmt.Println("reproduced under fresh seeded schedules (the recorded trace no longer fits this tree)")
+				}
+			}
 		}
 		if *verbose {
 			for k, t := range texts {
